@@ -28,7 +28,7 @@ import PanqecVerif.Proofs.LatHollowRhombicCodeThinA
 import PanqecVerif.Proofs.LatHollowRhombicCodeThinB
 import PanqecVerif.Proofs.LatHollowRhombicCodeThinC
 import PanqecVerif.Proofs.LatHollowRhombicCodeRankF
-import PanqecVerif.Proofs.LatHollowRhombicCodeRankN
+import PanqecVerif.Proofs.LatHollowRhombicCodeRankO
 import PanqecVerif.Proofs.Lat2DRankSubset
 
 namespace Panqec.C01HollowRhombicCode
@@ -284,23 +284,77 @@ theorem generators_listed (Lx Ly Lz : Nat) :
     (rankFamily Lx Ly Lz).Nodup ∧ ∀ s ∈ rankFamily Lx Ly Lz, s ∈ (lattice Lx Ly Lz).stabs :=
   ⟨nodup_rankFamily Lx Ly Lz, fun _ hs => rankFamily_sub hs⟩
 
-/-- the sizes for which the family is COUNTED: no hole (`Lx ≤ 2`, `Ly ≤ 3` or `Lz ≤ 3`: `_is_in_hole` is
-    never true), or a hole at least two layers of edges thick in every direction -/
-def Covered (Lx Ly Lz : Nat) : Prop := (Lx ≤ 2 ∨ Ly ≤ 3 ∨ Lz ≤ 3) ∨ (4 ≤ Lx ∧ 5 ≤ Ly ∧ 5 ≤ Lz)
+/-- the non-deficient sizes of the family for which the family is NOT yet counted: a hole one layer
+    thin in `z` and at least two unit cells wide in `x` and `y` (`Lz = 4`, `Lx ≥ 4`, `Ly ≥ 5`; the sizes with
+    `Lx ≥ 5`, `Ly ≥ 6` among them are deficient), and `Lx = 3`, `Ly = 5`, `Lz ≥ 7`.  On these sizes
+    `rankFamily` is independent but has fewer than `n − 1` members (one fewer for every further pair of
+    triangles along a hole edge that would have to be kept, as along the edge `x = y = 3`) -/
+def Gap (Lx Ly Lz : Nat) : Prop := (Lz = 4 ∧ 4 ≤ Lx ∧ 5 ≤ Ly) ∨ (Lx = 3 ∧ Ly = 5 ∧ 7 ≤ Lz)
+
+instance (Lx Ly Lz : Nat) : Decidable (Gap Lx Ly Lz) := by unfold Gap; infer_instance
+
+/-- the sizes for which the family is COUNTED: no hole or a hole one layer thin in two directions
+    (`NoHole`: `_is_in_hole` is never true on a vertex, a leg or a corner); a hole at least two layers
+    thick in every direction; the five families of sizes with `Lz ≥ 5` whose hole is thin in `x` or `y`
+    and that are not deficient -/
+def Covered (Lx Ly Lz : Nat) : Prop :=
+  NoHole Lx Ly Lz ∨ (4 ≤ Lx ∧ 5 ≤ Ly ∧ 5 ≤ Lz) ∨ (Lx = 3 ∧ 4 ≤ Ly ∧ Lz = 5) ∨ (Lx = 3 ∧ Ly = 4 ∧ 5 ≤ Lz) ∨
+  (Lx = 3 ∧ Ly = 5 ∧ Lz = 6) ∨ (Lx = 4 ∧ Ly = 4 ∧ 5 ≤ Lz) ∨ (4 ≤ Lx ∧ Ly = 4 ∧ Lz = 5)
 
 instance (Lx Ly Lz : Nat) : Decidable (Covered Lx Ly Lz) := by unfold Covered; infer_instance
 
-/-- a counted size is not deficient -/
-theorem covered_not_deficient {Lx Ly Lz : Nat} (h : Covered Lx Ly Lz) : ¬ Deficient Lx Ly Lz := by
-  unfold Covered at h; unfold Deficient; omega
+/-- the counted sizes are exactly the sizes that are neither deficient nor in the gap -/
+theorem covered_iff {Lx Ly Lz : Nat} (h : Family Lx Ly Lz) :
+    Covered Lx Ly Lz ↔ ¬ Deficient Lx Ly Lz ∧ ¬ Gap Lx Ly Lz := by
+  unfold Family at h
+  constructor
+  · intro hc
+    unfold Covered NoHole at hc
+    unfold Deficient Gap
+    rcases hc with (hc | hc | hc | hc | hc | hc) | hc | hc | hc | hc | hc | hc <;> omega
+  · rintro ⟨hd, hg⟩
+    unfold Deficient at hd
+    unfold Gap at hg
+    unfold Covered NoHole
+    by_cases a1 : Lx ≤ 2
+    · exact Or.inl (Or.inl a1)
+    by_cases a2 : Ly ≤ 3
+    · exact Or.inl (Or.inr (Or.inl a2))
+    by_cases a3 : Lz ≤ 3
+    · exact Or.inl (Or.inr (Or.inr (Or.inl a3)))
+    by_cases b1 : Lx = 3
+    · by_cases b2 : Ly = 4
+      · exact Or.inl (Or.inr (Or.inr (Or.inr (Or.inl ⟨b1, b2⟩))))
+      by_cases b3 : Lz = 4
+      · exact Or.inl (Or.inr (Or.inr (Or.inr (Or.inr (Or.inl ⟨b1, b3⟩)))))
+      by_cases b4 : Lz = 5
+      · exact Or.inr (Or.inr (Or.inl ⟨b1, by omega, b4⟩))
+      · exact Or.inr (Or.inr (Or.inr (Or.inr (Or.inl ⟨b1, by omega, by omega⟩))))
+    by_cases c1 : Ly = 4
+    · by_cases c2 : Lz = 4
+      · exact Or.inl (Or.inr (Or.inr (Or.inr (Or.inr (Or.inr ⟨c1, c2⟩)))))
+      by_cases c3 : Lz = 5
+      · exact Or.inr (Or.inr (Or.inr (Or.inr (Or.inr (Or.inr ⟨by omega, c1, c3⟩)))))
+      · exact Or.inr (Or.inr (Or.inr (Or.inr (Or.inr (Or.inl ⟨by omega, c1, by omega⟩)))))
+    · exact Or.inr (Or.inl ⟨by omega, by omega, by omega⟩)
 
-/-- the family has exactly `n − k = n − 1` members (sizes of the family that are counted) -/
-theorem generators_count_partial (Lx Ly Lz : Nat) (h : Family Lx Ly Lz) (hc : Covered Lx Ly Lz) :
+/-- the family has exactly `n − k = n − 1` members (every size of the family that is neither deficient
+    nor in the gap) -/
+theorem generators_count_partial (Lx Ly Lz : Nat) (h : Family Lx Ly Lz) (hd : ¬ Deficient Lx Ly Lz)
+    (hg : ¬ Gap Lx Ly Lz) :
     (rankFamily Lx Ly Lz).length + (lattice Lx Ly Lz).toCodeData.k = (lattice Lx Ly Lz).toCodeData.n := by
+  show (rankFamily Lx Ly Lz).length + 1 = (qubits Lx Ly Lz).length
+  have hc := (covered_iff h).mpr ⟨hd, hg⟩
   obtain ⟨hx, hy, hz⟩ := h
-  rcases hc with hc | ⟨h1, h2, h3⟩
+  rcases hc with hc | ⟨h1, h2, h3⟩ | ⟨e1, h2, e3⟩ | ⟨e1, e2, h3⟩ | ⟨e1, e2, e3⟩ | ⟨e1, e2, h3⟩ |
+    ⟨h1, e2, e3⟩
   · exact noHole_count hc hx hy (by omega)
   · exact thick_count h1 h2 h3
+  · rw [e1, e3]; exact count_3_L_5 Ly h2
+  · rw [e1, e2]; exact count_3_4_L Lz h3
+  · rw [e1, e2, e3]; exact count_3_5_6
+  · rw [e1, e2]; exact count_4_4_L Lz h3
+  · rw [e2, e3]; exact count_L_4_5 Lx h1
 
 /-- the number of cubes (every size): the cubes of the checkerboard in the box `Lx × (Ly+1) × (Lz−1)`
     (rounded up) minus those with all eight corners in the hole (the box
@@ -312,17 +366,14 @@ theorem n_cubes (Lx Ly Lz : Nat) :
   unfold Rhombic.half at this
   simpa using this
 
-/-- THE C01 STATEMENT, POSITIVE SIDE (partial): for every size of the supported family without hole
-    and for every size whose hole is at least two layers thick in every direction (`Lx ≥ 4`,
-    `Ly, Lz ≥ 5`) the matrices that `stabilizer_matrix`, `logicals_x`, `logicals_z` of the generic code
-    model assemble from this lattice model form a valid `[[n, 1]]` stabilizer code — commutation,
-    pairing and GF(2) rank `n − 1`.  MISSING for `valid_code` on every non-deficient size: the count of
-    the family for the sizes with a hole that is one layer thin in some direction and not deficient
-    (`Lx = 3`, `Ly = 4` or `Lz = 4` with a hole; the family is independent there too —
-    `generators_independent` — and has `n − 1` members on every such size that was evaluated, except
-    `Lz = 4 ∧ Lx ≥ 4 ∧ Ly ≥ 5` and `Lx = 3 ∧ Ly = 5 ∧ Lz ≥ 7`, where further triangles along other hole edges
-    would have to be kept) -/
-theorem valid_code_partial (Lx Ly Lz : Nat) (h : Family Lx Ly Lz) (hc : Covered Lx Ly Lz) :
+/-- THE C01 STATEMENT, POSITIVE SIDE (partial): for every size of the supported family that is not
+    deficient and not in the gap (`Gap`: `Lz = 4 ∧ Lx ≥ 4 ∧ Ly ≥ 5`, or `Lx = 3 ∧ Ly = 5 ∧ Lz ≥ 7`) the matrices
+    that `stabilizer_matrix`, `logicals_x`, `logicals_z` of the generic code model assemble from this
+    lattice model form a valid `[[n, 1]]` stabilizer code — commutation, pairing and GF(2) rank `n − 1`.
+    MISSING for `valid_code` on every non-deficient size: the three one-parameter families
+    `(4, Ly ≥ 5, 4)`, `(Lx ≥ 5, 5, 4)`, `(3, 5, Lz ≥ 7)` of the gap (measured: rank `n − 1` there too) -/
+theorem valid_code_partial (Lx Ly Lz : Nat) (h : Family Lx Ly Lz) (hd : ¬ Deficient Lx Ly Lz)
+    (hg : ¬ Gap Lx Ly Lz) :
     stabilizerMatrix (lattice Lx Ly Lz).toCodeData = some (lattice Lx Ly Lz).rowsH ∧
     logicalsX (lattice Lx Ly Lz).toCodeData = some (lattice Lx Ly Lz).rowsX ∧
     logicalsZ (lattice Lx Ly Lz).toCodeData = some (lattice Lx Ly Lz).rowsZ ∧
@@ -331,7 +382,16 @@ theorem valid_code_partial (Lx Ly Lz : Nat) (h : Family Lx Ly Lz) (hc : Covered 
   Lat2D.validCode_of_lattice_subset (lattice Lx Ly Lz) (wf Lx Ly Lz h) (commPair Lx Ly Lz h)
     (rankFamily Lx Ly Lz) (nodup_rankFamily Lx Ly Lz) (fun _ hs => rankFamily_sub hs)
     (generators_independent Lx Ly Lz (by unfold Family at h; omega))
-    (generators_count_partial Lx Ly Lz h hc)
+    (generators_count_partial Lx Ly Lz h hd hg)
+
+/-- the two sides together: a size of the family outside the gap is a valid `[[n, 1]]` code iff it is
+    not deficient -/
+theorem valid_iff_not_deficient_partial (Lx Ly Lz : Nat) (h : Family Lx Ly Lz) (hg : ¬ Gap Lx Ly Lz) :
+    ValidCodeL (lattice Lx Ly Lz).toCodeData.n 1
+      (lattice Lx Ly Lz).rowsH (lattice Lx Ly Lz).rowsX (lattice Lx Ly Lz).rowsZ ↔
+    ¬ Deficient Lx Ly Lz :=
+  ⟨fun hv hd => (deficient_not_valid Lx Ly Lz hd).2.2 hv,
+    fun hd => (valid_code_partial Lx Ly Lz h hd hg).2.2.2⟩
 
 /-! ### non-vacuity -/
 
@@ -358,12 +418,14 @@ set_option maxRecDepth 100000 in
 example : (lattice 2 2 3).getStab [1, -1, 1] = [([2, 0, 1], .X), ([1, 0, 2], .X), ([1, 0, 0], .X)] := by
   decide
 
-example : Covered 2 2 3 ∧ Covered 7 3 9 ∧ Covered 4 5 5 ∧ Covered 6 9 8 ∧ ¬ Covered 3 5 5 ∧ ¬ Covered 4 4 5 := by
+example : Covered 2 2 3 ∧ Covered 7 3 9 ∧ Covered 4 5 5 ∧ Covered 6 9 8 ∧ Covered 3 5 5 ∧ Covered 4 4 9 ∧
+    Covered 3 9 4 ∧ Covered 9 4 4 ∧ Covered 3 9 5 ∧ ¬ Covered 3 6 6 ∧ ¬ Covered 4 5 4 ∧ ¬ Covered 3 5 7 := by
   decide
+example : Gap 4 5 4 ∧ Gap 3 5 7 ∧ ¬ Gap 3 5 6 ∧ ¬ Gap 3 9 4 := by decide
 /-- a size with a thick hole: 520 qubits, rank 519 -/
 example : HasRank (2 * (lattice 6 5 8).toCodeData.n) (lattice 6 5 8).rowsH
     ((lattice 6 5 8).toCodeData.n - 1) ∧ (lattice 6 5 8).toCodeData.n = 520 :=
-  ⟨(valid_code_partial 6 5 8 (by decide) (by decide)).2.2.2.rank,
+  ⟨(valid_code_partial 6 5 8 (by decide) (by decide) (by decide)).2.2.2.rank,
     by have := n_formula 6 5 8; omega⟩
 example : Lat2D.IndepGenerators (lattice 3 6 6) (rankFamily 3 6 6) :=
   generators_independent 3 6 6 (by decide)
